@@ -13,9 +13,9 @@ C2S: seeded random Unicode / bytes / query strings / JSON values through the sam
      (Trace_Escapes) recomputes every reference result and evaluates the theorems on every
      recorded input.
 
-Binding demonstrated during development (scratch worktree, see notes/text.md): xhtml_escape
-without quote=True, url_escape with safe="/" in plus mode, utf8() returning str for None-like
-values, parse_qs_bytes encoding values as utf-8 - each reported as VIOLATION by S2C and C2S.
+Binding demonstrated during development (scratch worktree, see notes/text.md): parse_qs_bytes
+encoding values as utf-8 instead of latin-1 (S2C parse_qs_* / qs_pairs_roundtrip), json_encode
+guarding only "</s" (TLC rejects the recorded outputs containing "</").
 """
 import random
 
